@@ -102,6 +102,59 @@ func servers(t tb, kind string) []*server {
 	return out
 }
 
+// outputShape is what the published result of an operation lets everybody see about how it was encoded: for an
+// ASN.1 signature the lengths of the two DER integers and whether each starts with a pad byte (a function of the
+// leading bytes of r and s), for everything
+// else the length of the result.  Alternatives are compared within one shape only (see secretIndependence).
+func outputShape(op string, rep opclient.Reply) string {
+	if op != "sign" || len(rep.Results) != 1 {
+		return ""
+	}
+	sig := rep.Results[0]
+	if len(sig) > 8 && sig[0] == 0x30 && sig[2] == 0x02 && int(sig[3])+6 < len(sig) {
+		// the length of each integer and whether it starts with a 0x00 pad byte: together they say how many
+		// leading zero bytes the 32-byte value had and whether its first significant byte has the top bit set
+		lr := int(sig[3])
+		return fmt.Sprintf("der:%d:%d/%v:%d/%v", len(sig), lr, sig[4] == 0, sig[5+lr], sig[6+lr] == 0)
+	}
+	return fmt.Sprintf("len:%d", len(sig))
+}
+
+// stableDifference re-measures two requests whose observations differed, three times each.  The
+// difference counts only if it is a function of the request: every repetition of A gives one observation, every
+// repetition of B another.  Library code whose path depends on the process history rather than on its inputs (the
+// New function of a sync.Pool that the collector emptied, a cache that was evicted) gives different observations
+// for the *same* request; that is not what C17 is about, and it must not be reported as a secret-dependent path.
+func stableDifference(s *server, lineA, lineB string, ext bool) bool {
+	var obsA, obsB []string
+	for i := 0; i < 3; i++ {
+		// the same order as the measurement that differed: A unmeasured (warm-up), A, B - so that state keyed by
+		// the *secret* of the previous call (which is a secret-dependent path) reproduces as well
+		for k, line := range []string{lineA, lineA, lineB} {
+			rep, err := s.c.CallLine(line)
+			if err != nil {
+				return true // the server died: let the caller's own handling report what it saw
+			}
+			o := rep.Cov
+			if ext {
+				o = rep.CovExt
+			}
+			switch k {
+			case 1:
+				obsA = append(obsA, o)
+			case 2:
+				obsB = append(obsB, o)
+			}
+		}
+	}
+	for i := range obsA {
+		if obsA[i] != obsA[0] || obsB[i] != obsB[0] {
+			return false
+		}
+	}
+	return obsA[0] != obsB[0]
+}
+
 // bigOnPublicOutput: secret-handling operations that encode a public result with math/big.
 var bigOnPublicOutput = map[string]bool{"sign": true}
 
@@ -164,6 +217,7 @@ func secretIndependence(t *rapid.T, kind, sub string) {
 	}
 	feats := map[string]bool{}
 	distinct := map[string]bool{}
+	shapeSkips, unstable := 0, 0
 	var key []byte
 	for _, r := range reqs {
 		feats[features(r)] = true
@@ -175,6 +229,9 @@ func secretIndependence(t *rapid.T, kind, sub string) {
 	for _, s := range srv {
 		var first opclient.Reply
 		var firstLine string
+		// the representative of every published-output shape seen so far (see outputShape)
+		reps := map[string]opclient.Reply{}
+		repLines := map[string]string{}
 		// Warm-up: run the first request once without looking at it.  State that depends on the call
 		// history and the *public* inputs only (a lazily filled, properly synchronised cache keyed by a
 		// tag or a public key) is then the same for every measured call; state keyed by secret data is
@@ -196,10 +253,33 @@ func secretIndependence(t *rapid.T, kind, sub string) {
 			}
 			if i == 0 {
 				first, firstLine = rep, line
+				reps[outputShape(op, rep)], repLines[outputShape(op, rep)] = rep, line
 				continue
+			}
+			if rep.Status == first.Status {
+				// Compare with the first request whose *published* output has the same shape.  The
+				// property lets published outputs (unlike the secrets they were computed from) steer
+				// branches: a variable-length encoding of r and s takes a different path for a 32- and
+				// a 33-byte integer, in the standard library today and in the library's own packages
+				// if it ever encodes by hand.  Within one shape every block count must be equal.
+				sh := outputShape(op, rep)
+				if r0, ok := reps[sh]; ok {
+					first, firstLine = r0, repLines[sh]
+				} else {
+					reps[sh], repLines[sh] = rep, line
+					shapeSkips++
+					continue
+				}
 			}
 			if rep.Status != first.Status {
 				t.Fatalf("[%s/%s] %s: outcome depends on the secret: %q -> %s but %q -> %s", kind, s.build, op, firstLine, first.Status, line, rep.Status)
+			}
+			if rep.Cov != first.Cov && !stableDifference(s, firstLine, line, false) {
+				// the two requests do not differ *reproducibly*: the same request gives different observations
+				// when it is repeated (a pool refilled after a garbage collection, a cache evicted), so the
+				// difference seen is not a function of the secret
+				unstable++
+				continue
 			}
 			if rep.Cov != first.Cov {
 				t.Fatalf("[%s/%s] %s: executed path depends on the secret (public inputs identical)\n  A: %s\n  B: %s\n  observation A=%s B=%s\n%s",
@@ -209,14 +289,21 @@ func secretIndependence(t *rapid.T, kind, sub string) {
 			// a documented variable-time routine of the standard library runs on the secret.  Operations whose
 			// result is a public value encoded with math/big (the ASN.1 signature) are exempt: there the path
 			// through math/big legitimately follows the (secret-dependent, but published) r and s.
-			if kind == "cover" && !bigOnPublicOutput[op] && rep.CovExt != first.CovExt {
+			if kind == "cover" && !bigOnPublicOutput[op] && rep.CovExt != first.CovExt && stableDifference(s, firstLine, line, true) {
 				t.Fatalf("[%s/%s] %s: the path executed inside math/big depends on the secret (public inputs identical)\n  A: %s\n  B: %s\n  math/big observation A=%s B=%s\n%s",
 					kind, s.build, op, firstLine, line, first.CovExt, rep.CovExt, explain(s, firstLine, line))
 			}
 		}
 	}
 	nontrivial := len(feats) >= 2
-	stat.Case(sub, []string{"op:" + op, fmt.Sprintf("secrets:%d", len(distinct))}, nontrivial, key, func() any {
+	cls := []string{"op:" + op, fmt.Sprintf("secrets:%d", len(distinct))}
+	if shapeSkips > 0 {
+		cls = append(cls, "alternatives-with-another-published-output-shape")
+	}
+	if unstable > 0 {
+		cls = append(cls, "difference-not-reproducible")
+	}
+	stat.Case(sub, cls, nontrivial, key, func() any {
 		var lines []string
 		for _, r := range reqs {
 			lines = append(lines, fmt.Sprintf("%.200s [%s]", opclient.Line(r.Op, r.Args...), features(r)))
